@@ -3,3 +3,6 @@ import Tibc.Props.C05
 #print axioms Tibc.C05.transferOwner_exact
 #print axioms Tibc.C05.transferOwner_err_unchanged
 #print axioms Tibc.C05.mintMT_exact
+#print axioms Tibc.C05.mt_refund_exact
+#print axioms Tibc.C05.mt_supply_conserved
+#print axioms Tibc.C05.mt_balance_le_supply
